@@ -25,6 +25,7 @@ CONSTANTS
                 \* "fin" value may be delivered as finalization
     Splice,     \* BOOLEAN: a response field may come from another server session's response
     Reloads,    \* BOOLEAN: Reload actions enabled in the free phase
+    ExtFail,    \* BOOLEAN: a server start on an external-key setup may hit a failing key
     MaxFree     \* bound on the number of free-phase steps (state constraint)
 
 VARIABLES phase, nfree
@@ -111,12 +112,14 @@ FreeCLogStart == \E c \in CliIds : CLogStart(c, CliPw[c][1], 200 + c)
 FreeSLogStart ==
     /\ NextSrv # 0
     /\ \E s \in SrvSetups, u \in SrvRecs, c \in {k \in CliIds : cl[k].st # "none"},
-          cid \in SrvCids, ctx \in SrvCtxs, idu \in SrvIdus, ids \in SrvIdss :
+          cid \in SrvCids, ctx \in SrvCtxs, idu \in SrvIdus, ids \in SrvIdss,
+          xf \in (IF ExtFail THEN BOOLEAN ELSE {FALSE}) :
          /\ setups[s].st = "live"
+         /\ xf => setups[s].mode = "ext"
          /\ u # 0 => files[u].st = "stored"
          /\ SLogStart(NextSrv, s, RecChoice(u), cl[c].req, cid, ctx,
                       ResolveId(idu, RecChoice(u).cpk, SPk(s)), ResolveId(ids, RecChoice(u).cpk, SPk(s)),
-                      300 + NextSrv, FALSE)
+                      300 + NextSrv, xf)
 
 FreeCLogFinish ==
     \E c \in {k \in CliIds : Started(k)}, m \in Deliverable,
